@@ -156,4 +156,57 @@ theorem no_reuse_partial (f : Flavor) (hw : f.w = 8 * f.cs) (iv : Bytes) (i j : 
     (hi : i < 2 ^ f.w - 1) (hj : j < 2 ^ f.w - 1) (hne : i ≠ j) : ctrBlock f iv i ≠ ctrBlock f iv j :=
   fun h => hne (ctrBlock_injective f hw iv i j (by omega) (by omega) h)
 
+
+/-! ### injectivity at the level of keystream blocks (CTR and BelT): equal keystream ⇒ equal position -/
+
+/-- modular shift is injective on a full period. -/
+theorem add_mod_injective (M a i j : Nat) (hi : i < M) (hj : j < M) (h : (a + i) % M = (a + j) % M) : i = j := by
+  have hM : 0 < M := by omega
+  have h1 : (a + i) % M = (a % M + i) % M := by rw [Nat.mod_add_mod]
+  have h2 : (a + j) % M = (a % M + j) % M := by rw [Nat.mod_add_mod]
+  rw [h1, h2] at h
+  have ha : a % M < M := Nat.mod_lt _ hM
+  generalize a % M = b at h ha
+  have e1 : (b + i) % M = if b + i < M then b + i else b + i - M := by
+    split
+    · exact Nat.mod_eq_of_lt (by assumption)
+    · rw [Nat.mod_eq_sub_mod (by omega), Nat.mod_eq_of_lt (by omega)]
+  have e2 : (b + j) % M = if b + j < M then b + j else b + j - M := by
+    split
+    · exact Nat.mod_eq_of_lt (by assumption)
+    · rw [Nat.mod_eq_sub_mod (by omega), Nat.mod_eq_of_lt (by omega)]
+  rw [e1, e2] at h
+  split at h <;> split at h <;> omega
+
+/-- **BelT-CTR**: the blocks fed to the cipher at distinct block positions below `2^128` are distinct
+    (`LE128((s₀ + i + 1) mod 2^128)` is injective in `i`), so distinct positions never share a keystream block. -/
+theorem beltBlock_injective (s0 i j : Nat) (hi : i < 2 ^ 128) (hj : j < 2 ^ 128)
+    (h : toLE 16 ((s0 + i + 1) % 2 ^ 128) = toLE 16 ((s0 + j + 1) % 2 ^ 128)) : i = j := by
+  have hp : (2 : Nat) ^ 128 = 256 ^ 16 := by decide
+  have hpos : 0 < (2 : Nat) ^ 128 := Nat.pow_pos (by omega)
+  have key := toLE_injective 16 _ _ (by rw [← hp]; exact Nat.mod_lt _ hpos) (by rw [← hp]; exact Nat.mod_lt _ hpos) h
+  have e1 : s0 + i + 1 = (s0 + 1) + i := by omega
+  have e2 : s0 + j + 1 = (s0 + 1) + j := by omega
+  rw [e1, e2] at key
+  exact add_mod_injective _ _ i j hi hj key
+
+/-- … hence, for a permutation `E`, equal BelT keystream blocks imply equal positions. -/
+theorem belt_ks_injective (C : Cipher) (hC : C.Valid) (hbs : C.bs = 16) (iv : Bytes) (i j : Nat)
+    (hi : i < 2 ^ 128) (hj : j < 2 ^ 128) (h : beltKs C iv i = beltKs C iv j) : i = j := by
+  unfold beltKs at h
+  have hl : ∀ v, (toLE 16 v).length = C.bs := by intro v; rw [hbs]; exact toLE_length 16 v
+  have := congrArg C.dec h
+  rw [hC.dec_enc _ (hl _), hC.dec_enc _ (hl _)] at this
+  exact beltBlock_injective _ i j hi hj this
+
+/-- … and the same for CTR: equal keystream blocks at positions below `2^w` imply equal positions. -/
+theorem ctr_ks_injective (C : Cipher) (hC : C.Valid) (f : Flavor) (hw : f.w = 8 * f.cs) (iv : Bytes)
+    (hiv : iv.length = C.bs) (hcs : f.cs ≤ iv.length) (i j : Nat) (hi : i < 2 ^ f.w) (hj : j < 2 ^ f.w)
+    (h : ctrKs C f iv i = ctrKs C f iv j) : i = j := by
+  unfold ctrKs at h
+  have hl : ∀ k, (ctrBlock f iv k).length = C.bs := by
+    intro k; unfold ctrBlock; split <;> simp <;> omega
+  have := congrArg C.dec h
+  rw [hC.dec_enc _ (hl _), hC.dec_enc _ (hl _)] at this
+  exact ctrBlock_injective f hw iv i j hi hj this
 end Thm.C11
